@@ -275,6 +275,16 @@ class AbsSpectrumCalculator(EnergyUnitsManaged):
         
         ct = numpy.zeros((Nt),dtype=numpy.complex128)
         Na = AG.nmono
+        
+        # participation of the molecules in the exciton state: the rows of SS
+        # count the states of the aggregate, and molecule kk is excited in
+        # the states AG.vibindices[kk+1] (the single state kk+1 when there
+        # are no vibrational modes)
+        kap = numpy.zeros(Na, dtype=numpy.float64)
+        for kk in range(Na):
+            for vv in AG.vibindices[kk+1]:
+                kap[kk] += numpy.abs(SS[vv,n+1])**2
+        
         for kk in range(Na):
             
             #nkk = AG.monomers[kk].egcf_mapping[0]
@@ -283,7 +293,7 @@ class AbsSpectrumCalculator(EnergyUnitsManaged):
             
                 #nll = AG.monomers[ll].egcf_mapping[0]
                 
-                ct += ((SS[kk+1,n+1]**2)*(SS[ll+1,n+1]**2)*cfm.get_coft(kk,ll))
+                ct += kap[kk]*kap[ll]*cfm.get_coft(kk,ll)
                 #*AG.egcf_matrix.get_coft(nkk,nll))
             
         return ct
